@@ -1,10 +1,13 @@
 /-
-C04 on the ERROR path (Props-level statements; the proofs are in Proofs/RunErr.lean).
+C04 on the ERROR path, and no host panic (Props-level statements; the proofs are in
+Proofs/RunErr.lean, RunSafe.lean, RunErr2.lean, RunErr3.lean).
 
 `Props/C04.lean` speaks about evaluations that return a value. Here: evaluations that end in an
-error. The full statement is `ErrLeavesServed` — an erroring text of the grammar leaves a served
-interpreter served (table invariant, `mainfunc`, AT REST with the three stacks exactly those of
-entry), so the served states are closed under erroring texts as well. Proved so far (stage C1):
+error, and the claim that none ends in a host panic. Three contracts of the VM's mutual block
+(thirteen functions, by induction on the fuel) carry it:
+  `calling_contract`  (`allSpec'`)  normal returns            — Props/C04.lean;
+  `err_contract`      (`errSpec`)   the outcome `err`          — here;
+  `no_panic_contract` (`sSpec`)     no host panic, no nil cell where code continues — here.
 
 * `nonCall_fault_above`    one non-call instruction (24 of the 26 kinds) fetched by a `Running`
                            loop, WHATEVER its outcome: the scope stack the current run was
@@ -13,39 +16,40 @@ entry), so the served states are closed under erroring texts as well. Proved so 
                            data; the set-aside stacks and the loop records are untouched. The
                            room comes out of the verifier's annotation (`Running.roomD/roomL`).
 * `nonCall_fault_tables`   when it fails, the tables are those it found.
-* `erroring_text_fault`    an erroring text has a fault: a state of the run that satisfies the
-                           run-time invariant, the instruction fetched there, the state its
-                           failing `exec` left; if that state is `RunInv.FaultOK` the interpreter
-                           is served again and the stacks are exactly those of entry.
-* `erroring_text_nonCall_partial`
-                           … which it is when the failing instruction is not a call instruction
-                           (at any depth of activations of the outermost loop).
-* `errLeavesServed_of_callFault`
-                           the full statement from `RunInv.CallFaultOK` (a failing `callArr` /
-                           `callExpr` leaves a `FaultOK` state: the error-path contract of the
-                           nested evaluators — stage C2, NOT proved).
+* `err_contract`           every function of the mutual block that fails leaves well-formed
+                           tables that have only grown, the set-aside stacks and the scope stack
+                           EXACTLY as they were (`RunInv.ErrOut`; `exec`: `RunInv.FaultOK`): a
+                           nested `Run` comes back to the scope stack it captured, so the restore
+                           of the evaluator around it (`EvalCallExpression`, `Force`, `Apply`,
+                           `CallUserFunction`) is exact on scope and set-aside stacks.
+* `no_panic_contract`      from a state without nil cells, with a scope to bind in (`RunInv.NoNil`),
+                           no function of the mutual block ends in a host panic, and on a normal
+                           return the state is `NoNil` again.
+* `err_leaves_served`      **the full statement `ErrLeavesServed`, proved**: a text of the grammar
+                           that ends in an error leaves a served interpreter served — table
+                           invariant, `mainfunc`, no nil cell — AT REST, with the three stacks and
+                           the set-aside stacks exactly those of entry.
+* `no_host_panic`          **no text of the grammar ends in a host panic** (`NoHostPanic`) — from
+                           any state reached by value-returning and erroring texts of the grammar.
+* `ServedStateE`, `servedStateE_served`, `run_at_rest_after_errors`
+                           the served states are closed under value-returning AND erroring texts;
+                           after any such history a text that returns a value leaves the
+                           interpreter at rest, one that fails leaves it at rest with the stacks
+                           exactly those of entry (C05's `vm_run_error_exact`, `Extends3`
+                           discharged for the outermost `Run` of generated code).
+* `nested_run_error_restores`
+                           every nested `Run` that fails leaves the scope stack and the set-aside
+                           stacks of its entry and well-formed tables.
+Not covered: texts outside the grammar `Bal.okLs`, compile errors, fuel exhaustion (the
+interpreter is dead then); the tie of the model to the Go code is by correspondence.
 -/
 import ZygoVerif.Props.C04
-import ZygoVerif.Proofs.RunErr
+import ZygoVerif.Proofs.RunErr3
 namespace ZygoVerif.C04
 open ZygoVerif.Bal ZygoVerif.VM ZygoVerif.Core ZygoVerif.RunInv ZygoVerif.Contain
 
-/-- **err_leaves_served**, full statement: from a state reachable from the fresh interpreter by
-texts of the grammar that returned values, a text of the grammar that ends in an error leaves
-the interpreter at rest — the three stacks and the set-aside stacks exactly those of entry —
-and with the run-time invariant (so the next text is covered again). -/
-def ErrLeavesServed : Prop :=
-  ∀ (fuel : Nat) (es : List Expr) (s s' : St) (v : String) (tr : List String) (d : String) (alive : Bool),
-    Served s → okLs es = true → runText fuel es s = (Outcome.done "err" v tr d, s', alive) →
-    Served s' ∧ s'.data = s.data ∧ s'.linear = s.linear ∧ s'.addr = s.addr ∧ s'.suspended = s.suspended
+/-! ## One non-call instruction, whatever its outcome -/
 
-theorem served_same_stacks {s s' : St} (h : Served s) (h' : Served s') :
-    s'.data = s.data ∧ s'.linear = s.linear ∧ s'.addr = s.addr ∧ s'.suspended = s.suspended := by
-  obtain ⟨d, l, a, _⟩ := h.rest
-  obtain ⟨d', l', a', _⟩ := h'.rest
-  exact ⟨d'.trans d.symm, l'.trans l.symm, a'.trans a.symm, h'.susp.trans h.susp.symm⟩
-
-/-- (C1) one non-call instruction of a `Running` loop, whatever its outcome -/
 theorem nonCall_fault_above {b : Base} {s : St} {top : Act} {rest : List Act} (hr : Running b s top rest) {i : Instr}
     (hf : (fnOf s s.curfunc).code[s.pc.toNat]? = some i) (hs : simple i = true) (n : Nat) :
     b.linear <:+ ((exec (n + 1) i).run s).2.linear ∧ ((exec (n + 1) i).run s).2.suspended = s.suspended ∧
@@ -54,41 +58,98 @@ theorem nonCall_fault_above {b : Base} {s : St} {top : Act} {rest : List Act} (h
   have h := exec_simple_above_la hr hf hs n
   ⟨h.1, h.2.1, h.2.2.1, h.2.2.2, exec_simple_above_d hr hf hs n⟩
 
-/-- (C1) a non-call instruction that fails leaves the tables as it found them -/
 theorem nonCall_fault_tables (n : Nat) (i : Instr) (s s₁ : St) (e : Fault) (hs : simple i = true)
     (h : (exec (n + 1) i).run s = (.error e, s₁)) : Tab s s₁ :=
   exec_simple_fail_tab n i s hs e s₁ h
 
-/-- (C1) the fault of an erroring text -/
-theorem erroring_text_fault (fuel : Nat) (es : List Expr) (s s' : St) (v : String) (tr : List String) (d : String) (alive : Bool)
-    (hs : Served s) (hok : okLs es = true) (h : runText fuel es s = (Outcome.done "err" v tr d, s', alive)) :
-    ∃ b s₀ top rest i m s₁, b.main = true ∧ WF s₀ ∧ Running b s₀ top rest ∧
-      (fnOf s₀ s₀.curfunc).code[s₀.pc.toNat]? = some i ∧ (exec m i).run s₀ = (.error .err, s₁) ∧
-      (FaultOK b s₀ s₁ →
-        Served s' ∧ s'.data = s.data ∧ s'.linear = s.linear ∧ s'.addr = s.addr ∧ s'.suspended = s.suspended) := by
-  obtain ⟨b, s₀, top, rest, i, m, s₁, q0, q1, q2, q3, q4, q5⟩ := runText_err fuel es s s' v tr d alive hs hok h
-  exact ⟨b, s₀, top, rest, i, m, s₁, q0, q1, q2, q3, q4, fun hf => ⟨q5 hf, served_same_stacks hs (q5 hf)⟩⟩
+/-! ## The two contracts -/
 
-/-- (C1) an error raised by a non-call instruction leaves the interpreter served, at rest, the
-stacks exactly those of entry -/
-theorem erroring_text_nonCall_partial (fuel : Nat) (es : List Expr) (s s' : St) (v : String) (tr : List String) (d : String)
-    (alive : Bool) (hs : Served s) (hok : okLs es = true)
-    (h : runText fuel es s = (Outcome.done "err" v tr d, s', alive)) :
-    ∃ b s₀ top rest i m s₁, b.main = true ∧ WF s₀ ∧ Running b s₀ top rest ∧
-      (fnOf s₀ s₀.curfunc).code[s₀.pc.toNat]? = some i ∧ (exec m i).run s₀ = (.error .err, s₁) ∧
-      (simple i = true →
-        Served s' ∧ s'.data = s.data ∧ s'.linear = s.linear ∧ s'.addr = s.addr ∧ s'.suspended = s.suspended) := by
-  obtain ⟨b, s₀, top, rest, i, m, s₁, q0, q1, q2, q3, q4, q5⟩ := runText_err_simple_partial fuel es s s' v tr d alive hs hok h
-  exact ⟨b, s₀, top, rest, i, m, s₁, q0, q1, q2, q3, q4, fun hsi => ⟨q5 hsi, served_same_stacks hs (q5 hsi)⟩⟩
+/-- the error-path contract: all thirteen functions, outcome `err`, every fuel -/
+theorem err_contract : ∀ n, ErrSpec n := errSpec
 
-/-- the full statement from the error-path contract of the call instructions (stage C2) -/
-theorem errLeavesServed_of_callFault (hcall : CallFaultOK) : ErrLeavesServed := by
+/-- no host panic, no nil cell where code continues: all thirteen functions, every fuel -/
+theorem no_panic_contract : ∀ n, SSpec n := sSpec
+
+/-- every nested `Run` of a function object entered by `CallFunction` (`b`: the stacks of the
+caller) that fails leaves well-formed tables, the scope stack and the set-aside stacks of its entry -/
+theorem nested_run_error_restores (n : Nat) (b : Base) (s s' : St) (top : Act) (hg : NoNil s) (hw : WF s)
+    (hr : Running b s top []) (hb : b.pc = -2) (hm : b.main = false) (hl : b.linear = s.linear)
+    (h : (run n).run s = (.error .err, s')) :
+    WFd s' ∧ TExt s s' ∧ s'.suspended = s.suspended ∧ s'.linear = s.linear :=
+  have := (errSpec n).run b s s' top hg hw hr hb hm hl h
+  ⟨this.tab, this.ext, this.susp, this.lin⟩
+
+/-! ## Texts -/
+
+/-- the fresh interpreter: served, and no nil cell -/
+theorem servedN_initSt : ServedN initSt :=
+  ⟨served_initSt, ⟨VMSafe.good_init, by decide, fun z hz => by cases hz⟩⟩
+
+theorem served_same_stacks {s s' : St} (h : Served s) (h' : Served s') :
+    s'.data = s.data ∧ s'.linear = s.linear ∧ s'.addr = s.addr ∧ s'.suspended = s.suspended := by
+  obtain ⟨d, l, a, _⟩ := h.rest
+  obtain ⟨d', l', a', _⟩ := h'.rest
+  exact ⟨d'.trans d.symm, l'.trans l.symm, a'.trans a.symm, h'.susp.trans h.susp.symm⟩
+
+/-- **err_leaves_served**, full statement: a text of the grammar that ends in an error leaves a
+served interpreter served, at rest — the three stacks and the set-aside stacks exactly those of
+entry — so the next text is covered again. -/
+def ErrLeavesServed : Prop :=
+  ∀ (fuel : Nat) (es : List Expr) (s s' : St) (v : String) (tr : List String) (d : String) (alive : Bool),
+    ServedN s → okLs es = true → runText fuel es s = (Outcome.done "err" v tr d, s', alive) →
+    ServedN s' ∧ AtRest s' ∧ s'.data = s.data ∧ s'.linear = s.linear ∧ s'.addr = s.addr ∧ s'.suspended = s.suspended
+
+theorem err_leaves_served : ErrLeavesServed := by
   intro fuel es s s' v tr d alive hs hok h
-  have := runText_err_served hcall fuel es s s' v tr d alive hs hok h
-  exact ⟨this, served_same_stacks hs this⟩
+  have := runText_errN fuel es s s' v tr d alive hs hok h
+  exact ⟨this, this.served.rest, served_same_stacks hs.served this.served⟩
 
-/-- non-vacuity of `FaultOK`/`Tab`: a state is `Tab`-related to itself, and the fresh interpreter is `Served` -/
+/-- **no_host_panic**, full statement (C01's claim for generated code, on the VM model): no text
+of the grammar, served by an interpreter that satisfies the invariants, ends in a host panic. -/
+def NoHostPanic : Prop :=
+  ∀ (fuel : Nat) (es : List Expr) (s s' : St) (v : String) (tr : List String) (d : String) (alive : Bool),
+    ServedN s → okLs es = true → runText fuel es s ≠ (Outcome.done "panic" v tr d, s', alive)
+
+theorem no_host_panic : NoHostPanic := by
+  intro fuel es s s' v tr d alive hs hok
+  exact (runText_nn fuel es s hs hok).1 v tr d s' alive
+
+/-- The states an interpreter is in between texts: the fresh interpreter, and every state reached
+from it by texts of the grammar that returned a value OR ended in an error (`ServedState` of
+Props/C04.lean closed under erroring texts). Not covered: compile errors, fuel exhaustion. -/
+inductive ServedStateE : St → Prop
+  | init : ServedStateE initSt
+  | text {s s' : St} {fuel : Nat} {es : List Expr} {v : String} {tr : List String} {d : String} {alive : Bool} :
+      ServedStateE s → okLs es = true → runText fuel es s = (Outcome.done "ok" v tr d, s', alive) → ServedStateE s'
+  | err {s s' : St} {fuel : Nat} {es : List Expr} {v : String} {tr : List String} {d : String} {alive : Bool} :
+      ServedStateE s → okLs es = true → runText fuel es s = (Outcome.done "err" v tr d, s', alive) → ServedStateE s'
+
+theorem servedStateE_served {s : St} (h : ServedStateE s) : ServedN s := by
+  induction h with
+  | init => exact servedN_initSt
+  | text _ hok hrun ih => exact runText_okN _ _ _ _ _ _ _ _ ih hok hrun
+  | err _ hok hrun ih => exact runText_errN _ _ _ _ _ _ _ _ ih hok hrun
+
+/-- after any history of value-returning and erroring texts of the grammar: the next text does
+not end in a host panic; if it returns a value the interpreter is at rest; if it fails it is at
+rest with the three stacks and the set-aside stacks exactly those of entry (C05's
+`vm_run_error_exact` with the `Extends3` hypothesis discharged for the outermost `Run`). -/
+theorem run_at_rest_after_errors (fuel : Nat) (es : List Expr) (s s' : St) (v : String)
+    (tr : List String) (d : String) (alive : Bool) (hs : ServedStateE s) (hok : okLs es = true) :
+    runText fuel es s ≠ (Outcome.done "panic" v tr d, s', alive) ∧
+    (runText fuel es s = (Outcome.done "ok" v tr d, s', alive) → AtRest s') ∧
+    (runText fuel es s = (Outcome.done "err" v tr d, s', alive) →
+      AtRest s' ∧ s'.data = s.data ∧ s'.linear = s.linear ∧ s'.addr = s.addr ∧ s'.suspended = s.suspended) := by
+  have hS := servedStateE_served hs
+  refine ⟨no_host_panic fuel es s s' v tr d alive hS hok,
+    fun h => (runText_okN fuel es s s' v tr d alive hS hok h).served.rest, fun h => ?_⟩
+  exact (err_leaves_served fuel es s s' v tr d alive hS hok h).2
+
+/-- non-vacuity: the fresh interpreter is served; the empty text leads to a `ServedStateE` -/
+example : ServedN initSt := servedN_initSt
+example : ∃ s', runText 2 [] initSt = (Outcome.done "ok" "nil" [] (depths initSt), s', true) ∧ ServedStateE s' := by
+  obtain ⟨s', h, _⟩ := eval_empty_nil initSt 0 ⟨rfl, rfl, rfl, rfl, rfl, by decide⟩
+  exact ⟨s', h, ServedStateE.text ServedStateE.init rfl h⟩
 example : Tab initSt initSt := Tab.refl _
-example : Served initSt := served_initSt
 
 end ZygoVerif.C04
